@@ -434,7 +434,7 @@ HandlePdelayReq(s, p, m) ==  \* m: [src, seq, c, rx]
   LET c == [k |-> "PDelayResp", id |-> m.seq, req |-> m.src]
   IN Res([s EXCEPT !.ctx[p] = IF Ghost THEN Append(@, c) ELSE @],
          <<[a |-> "E", ll |-> TRUE, t |-> "PdelayResp", seq |-> m.seq, src |-> <<Own, p>>, dom |-> 0, sdo |-> 0, ver |-> 2,
-            req |-> m.src, two |-> TRUE, ts |-> V(m.rx), ctx |-> Len(s.ctx[p]) + 1, selfdec |-> TRUE]>>)
+            req |-> m.src, two |-> TRUE, ts |-> V(m.rx), corr |-> V(m.c), ctx |-> Len(s.ctx[p]) + 1, selfdec |-> TRUE]>>)
 
 \* ---------------------------------------------------------------- peer delay responses (port/slave.rs)
 PdFaulty(s, p) ==
